@@ -26,7 +26,7 @@ import re
 import sys
 
 VERIF = os.path.dirname(os.path.dirname(os.path.abspath(__file__)))
-REPO = "/repo"
+REPO = os.environ.get("VERIF_REPO", "/repo").rstrip("/") or "/repo"   # same override as vlib/common.py
 AVX2 = os.path.join(REPO, "lightmotif/src/pli/platform/avx2.rs")
 DISPATCH = os.path.join(REPO, "lightmotif/src/pli/dispatch.rs")
 OUT = os.path.join(VERIF, "coq", "stripe", "GenStripeNet.v")
